@@ -1,5 +1,6 @@
 import PyYetiVerif.Lemmas.Findap
 import PyYetiVerif.Lemmas.Binify
+import PyYetiVerif.Lemmas.BinifyAuto
 import PyYetiVerif.Lemmas.Fde
 /-!
 # C10 — cycle-counting pipeline and fatigue-damage PSD invariants
@@ -258,9 +259,8 @@ theorem digitize_spec (right : Bool) (x : α) (bins : List α) (k : Nat) (lo hi 
 
 variable {β : Type} [AddCommMonoid β]
 
-/-- a cycle is covered by the bins when some bin's documented interval contains it -/
-def Covered (right : Bool) (bins : List α) (x : α) : Prop :=
-  ∃ k lo hi, bins[k]? = some lo ∧ bins[k + 1]? = some hi ∧ inBin right lo hi x
+/- `Covered right bins x` (Lemmas/BinifyAuto.lean): some bin's documented half-open interval
+contains `x`, i.e. `∃ k lo hi, bins[k]? = some lo ∧ bins[k + 1]? = some hi ∧ inBin right lo hi x`. -/
 
 /-- one step of `_binify` (either setting of `ensure_boundaries`): a cycle whose mean lies in
 mean-bin `i` and whose amplitude lies in amplitude-bin `j` adds its count to `table[i, j]`. -/
@@ -322,6 +322,63 @@ theorem binify_conserves (right ensure : Bool) (br bm : List α) (hr : List.Pair
   exact ⟨T, e, by rw [hs, tableSum_zeros, zero_add]⟩
 
 end binning
+
+/-! ### automatically generated bins (`getbins` with an integer count) -/
+
+section autobins
+variable {α : Type} [Field α] [LinearOrder α] [IsStrictOrderedRing α]
+
+/-- the edges `getbins` builds for an integer count `n ≥ 1` (`np.linspace(mn, mx, n + 1)` after the
+swap / `± 0.5` fix-up of `mx`, `mn`, then `bb[0] -= p` for `right`, `bb[-1] += p` otherwise, with
+`p = 0.001·(mx − mn)`) are strictly increasing, there are `n + 1` of them, and **every value between
+`mn` and `mx` lies in the documented half-open interval of some bin** — under either `right`
+convention (this is what the end-point nudge is for).  Exact arithmetic; see finding
+`getbins-auto-nudge-absorbed` for what doubles do when `p` is below half an ulp of the end point. -/
+theorem auto_bins_cover (n : Nat) (hn : 0 < n) (mx mn : α) (right : Bool) :
+    (getbinsScalar n mx mn right).Pairwise (· < ·) ∧ (getbinsScalar n mx mn right).length = n + 1 ∧
+      ∀ x, min mx mn ≤ x → x ≤ max mx mn → Covered right (getbinsScalar n mx mn right) x := by
+  refine ⟨getbinsScalar_pairwise n hn mx mn right, getbinsScalar_length n mx mn right, ?_⟩
+  intro x h1 h2
+  obtain ⟨a, b⟩ := fixRange_contains mx mn x h1 h2
+  exact getbinsScalar_covers n hn mx mn right x a b
+
+/-- `binify` with integer bin counts for amplitude and mean (the "automatically generated bins" of
+the property) always returns a table, never an `IndexError`/`ValueError`; the table total is the
+total cycle count, and every cycle lies in a bin of both axes: the coverage hypothesis of
+`binify_conserves` is discharged by `auto_bins_cover`. -/
+theorem binify_auto_conserves (right check : Bool) (na nm : Nat) (hna : 0 < na) (hnm : 0 < nm)
+    (c : α × α × α) (cs : List (α × α × α)) :
+    ∃ T ampb aveb, binifyApi right check (.scalar na) (.scalar nm) (c :: cs) = .table T ampb aveb ∧
+      tableSum T = ((c :: cs).map (·.2.2)).sum ∧
+      ∀ d ∈ c :: cs, Covered right ampb d.1 ∧ Covered right aveb d.2.1 := by
+  obtain ⟨amx, e1, h1⟩ := maxOf_spec c.1 (cs.map (·.1))
+  obtain ⟨amn, e2, h2⟩ := minOf_spec c.1 (cs.map (·.1))
+  obtain ⟨mmx, e3, h3⟩ := maxOf_spec c.2.1 (cs.map (·.2.1))
+  obtain ⟨mmn, e4, h4⟩ := minOf_spec c.2.1 (cs.map (·.2.1))
+  have cov : ∀ d ∈ c :: cs, Covered right (getbinsScalar na amx amn right) d.1 ∧
+      Covered right (getbinsScalar nm mmx mmn right) d.2.1 := by
+    intro d hd
+    have m1 : d.1 ∈ c.1 :: cs.map (·.1) := by
+      rcases List.mem_cons.mp hd with rfl | hd
+      · simp
+      · exact List.mem_cons_of_mem _ (List.mem_map.mpr ⟨d, hd, rfl⟩)
+    have m2 : d.2.1 ∈ c.2.1 :: cs.map (·.2.1) := by
+      rcases List.mem_cons.mp hd with rfl | hd
+      · simp
+      · exact List.mem_cons_of_mem _ (List.mem_map.mpr ⟨d, hd, rfl⟩)
+    exact ⟨(auto_bins_cover na hna amx amn right).2.2 d.1 (le_trans (min_le_right _ _) (h2 _ m1))
+        (le_trans (h1 _ m1) (le_max_left _ _)),
+      (auto_bins_cover nm hnm mmx mmn right).2.2 d.2.1 (le_trans (min_le_right _ _) (h4 _ m2))
+        (le_trans (h3 _ m2) (le_max_left _ _))⟩
+  obtain ⟨T, eT, hT⟩ := binify_conserves right false (getbinsScalar na amx amn right)
+    (getbinsScalar nm mmx mmn right) (auto_bins_cover na hna amx amn right).1
+    (auto_bins_cover nm hnm mmx mmn right).1 (c :: cs) cov
+  refine ⟨T, _, _, ?_, hT, cov⟩
+  simp only [binifyApi, List.map_cons] at e1 e2 e3 e4 ⊢
+  rw [e1, e2, e3, e4]
+  simp only [binsFor, Bool.or_self, eT]
+
+end autobins
 
 
 /-! ### fdepsd bookkeeping -/
